@@ -5,6 +5,7 @@ import (
 	"go/token"
 	"go/types"
 	"sort"
+	"strconv"
 	"strings"
 
 	"golang.org/x/tools/go/ssa"
@@ -177,6 +178,119 @@ func checkC14(P *Prog, r *Result) {
 	}, "C14/no-front-end-state-carried", 8)
 }
 
+// requestTableByInterpretation decides zhttp.Request when it is not written as the documented nest of switches.
+// The function may look at the request only through r.Method and the Content-Type header, compare strings only
+// with constants, and take the header apart only at ';' (strings.Cut / Index / IndexByte and slicing at that
+// index). Its behaviour then depends on the input through finitely many classes: the method equal to one of
+// the string constants of the code or to none of them, the media type likewise, and whether parameters follow
+// the media type. It is interpreted (symexec.go) on one representative per class; anything outside that
+// vocabulary makes the run undecided.
+func (P *Prog) requestTableByInterpretation(fn *ssa.Function) (string, string) {
+	if len(fn.Params) != 1 {
+		return "undecided", "unexpected signature"
+	}
+	consts := map[string]bool{"GET": true, "HEAD": true, "application/json": true, "application/x-www-form-urlencoded": true}
+	seen := map[*ssa.Function]bool{}
+	var collect func(f *ssa.Function, d int)
+	collect = func(f *ssa.Function, d int) {
+		if f == nil || seen[f] || d > 3 || f.Blocks == nil {
+			return
+		}
+		seen[f] = true
+		eachInstr(f, func(_ *ssa.BasicBlock, _ int, in ssa.Instruction) {
+			var ops []*ssa.Value
+			for _, op := range in.Operands(ops) {
+				if s, ok := constString(*op); ok && s != ";" && s != "Content-Type" {
+					consts[s] = true
+				}
+			}
+			if ci := callOf(in); ci != nil && ci.static != nil && inModule(funcPkgPath(ci.static)) {
+				collect(ci.static, d+1)
+			}
+		})
+	}
+	collect(fn, 0)
+	reps := append(sortedKeys(consts), "zz-none-of-the-constants")
+	for _, method := range reps {
+		for _, media := range reps {
+			for _, params := range []bool{false, true} {
+				header := media
+				if params {
+					header = media + "; charset=utf-8"
+				}
+				class := fmt.Sprintf("method %q, Content-Type %q", method, header)
+				oracle := func(callee string, args []symVal) (symVal, bool) {
+					str := func(i int) (string, bool) {
+						if i >= len(args) || args[i].kind != svStr {
+							return "", false
+						}
+						u, err := strconv.Unquote(args[i].name)
+						return u, err == nil
+					}
+					q := func(s string) symVal { return symVal{kind: svStr, name: strconv.Quote(s)} }
+					switch callee {
+					case "(net/http.Header).Get":
+						if k, ok := str(1); ok && k == "Content-Type" && args[0].kind == svOpaque && args[0].name == "r.Header" {
+							return q(header), true
+						}
+					case "strings.Cut":
+						a, ok1 := str(0)
+						sep, ok2 := str(1)
+						if ok1 && ok2 && sep == ";" {
+							before, after, found := strings.Cut(a, sep)
+							return symVal{kind: svTuple, tuple: []symVal{q(before), q(after), {kind: svBool, b: found}}}, true
+						}
+					case "strings.Index":
+						a, ok1 := str(0)
+						sep, ok2 := str(1)
+						if ok1 && ok2 && sep == ";" {
+							return symVal{kind: svInt, i: int64(strings.Index(a, sep))}, true
+						}
+					case "strings.IndexByte", "strings.IndexRune":
+						if a, ok := str(0); ok && len(args) == 2 && args[1].kind == svInt && args[1].i == ';' {
+							return symVal{kind: svInt, i: int64(strings.IndexByte(a, ';'))}, true
+						}
+					}
+					return symVal{}, false
+				}
+				se := newSymExec(oracle)
+				se.fieldLoad = func(path string) (symVal, bool) {
+					switch path {
+					case "r.Method":
+						return symVal{kind: svStr, name: strconv.Quote(method)}, true
+					case "r.Header":
+						return symVal{kind: svOpaque, name: "r.Header"}, true
+					}
+					return symVal{}, false
+				}
+				if !se.run(fn, []symVal{{kind: svOpaque, name: "r"}}) {
+					if se.panics != "" {
+						return "bad", class + ": panics (" + se.panics + ")"
+					}
+					return "undecided", se.problem
+				}
+				want := "call @Config.Parsers.Query"
+				if method != "GET" && method != "HEAD" {
+					switch media {
+					case "application/json":
+						want = "call @Config.Parsers.JSON"
+					case "application/x-www-form-urlencoded":
+						want = "call @Config.Parsers.Form"
+					}
+				}
+				if len(se.ret) != 1 || se.ret[0].kind != svStr || se.ret[0].name != want {
+					got := "?"
+					if len(se.ret) == 1 {
+						got = se.ret[0].String()
+					}
+					return "bad", class + ": " + got + ", documented: " + want
+				}
+			}
+		}
+	}
+	return "ok", ""
+}
+
 func checkC15(P *Prog, r *Result) {
 	R := P.roles
 	r.Explanation = "Decides zhttp's source selection and failure protocol structurally: (dispatch-table) the decision tree of zhttp.Request, extracted from its SSA as (path condition -> parser slot called), " +
@@ -204,8 +318,12 @@ func checkC15(P *Prog, r *Result) {
 		// order-insensitive comparison of the decision table
 		if strings.Join(uniqSorted(strings.Split(got, "\n")), "\n") == strings.Join(uniqSorted(strings.Split(want, "\n")), "\n") {
 			r.ok("C15/dispatch-table", "zhttp.Request", P.pos(fn.Pos()), "GET|HEAD→Query; application/json→JSON; application/x-www-form-urlencoded→Form; otherwise Query; media type = Content-Type cut at ';'")
+		} else if verdict, detail := P.requestTableByInterpretation(fn); verdict == "ok" {
+			r.ok("C15/dispatch-table", "zhttp.Request", P.pos(fn.Pos()), "GET|HEAD→Query; application/json→JSON; application/x-www-form-urlencoded→Form; otherwise Query; media type = Content-Type cut at ';' (decided by interpretation on the classes of method × media type × parameters present)")
+		} else if verdict == "bad" {
+			r.bad("C15/dispatch-table", "zhttp.Request", P.pos(fn.Pos()), "the source-selection table of zhttp.Request differs from the documented one", detail)
 		} else {
-			r.bad("C15/dispatch-table", "zhttp.Request", P.pos(fn.Pos()), "the source-selection table of zhttp.Request differs from the documented one", "expected:\n"+want, "found:\n"+got)
+			r.bad("C15/dispatch-table", "zhttp.Request", P.pos(fn.Pos()), "the source-selection table of zhttp.Request differs from the documented one", "expected:\n"+want, "found:\n"+got, "interpretation: "+detail)
 		}
 	} else {
 		r.broken("anchor zhttp.Request not found")
